@@ -39,7 +39,9 @@ def demo(wt, bd, seed):
     if rc:
         return None, "demo does not compile:\n" + out[-1500:]
     try:
-        rc, out = sh([exe], cwd=wt, timeout=600)
+        env = dict(os.environ)
+        env["SS_ROOT"] = wt          # some demos take the source tree from $SS_ROOT, some from argv[1]
+        rc, out = sh([exe, wt], cwd=wt, timeout=900, env=env)
     except subprocess.TimeoutExpired:
         return 124, "demo timed out"
     failed = rc != 0 or "FAIL" in out
